@@ -164,6 +164,8 @@ class Client:
           raise outcome[1]
         res = handler(*args, **kwargs)
         late = BOARD.reply_delay.get(self.address, 0) if method != 'heartbeat' else 0
+        if callable(BOARD.reply_delay.get('*')) and method != 'heartbeat':
+          late = BOARD.reply_delay['*'](self.address, method, kwargs) or late
         if late:
           import time as _t
           _t.sleep(late)          # the work is done, the answer is slow
